@@ -325,6 +325,11 @@ func (c *w2cfg) serveUpstream(rc *RunCtx, up int, network string) func(sc *simne
 					o.SetDo()
 				}
 				r.Extra = append(r.Extra, o)
+				if simrt.Choose(4) == 0 {
+					// RFC 6891 does not require the OPT to be the last additional record
+					r.Extra = append(r.Extra, &dns.A{Hdr: dns.RR_Header{Name: "glue.test.", Rrtype: dns.TypeA, Class: dns.ClassINET, Ttl: ttl}, A: net.IPv4(10, 3, 3, 3)})
+					simrt.Probe("w2.upstream_opt_not_last")
+				}
 				simrt.Probe("w2.upstream_reply_with_opt")
 			}
 			out, err := r.Pack()
